@@ -78,13 +78,13 @@ theorem live_iterator_read_ahead (c : MemoCfg) (hc : 0 < c.chunk) (m : Memo) (it
     DemandLe c (m.pull3 c it).1 (max r ((it.index : Int) + 1)) :=
   pull3_demand c hc m it r h
 
-/-- tie 1: the memoizer functions are the ones the transition system was written from, and the
-source is consulted only from `run` (which only `newMemoizeSpec` starts, once) -/
-theorem memoizer_as_modelled :
-    Gen.V1.monitorSrc = Expect.monitorSrc12 ∧ Gen.V2.monitorSrc = Expect.monitorSrc12 ∧
-    Gen.V3.monitorSrc = Expect.monitorSrc3 ∧
-    Gen.V1.iterCalledBy = ["memoizer.run"] ∧ Gen.V2.iterCalledBy = ["memoizer.run"] ∧
-    Gen.V3.iterCalledBy = ["memoizer.run"] := by
+/-- tie 1: the digit source is consulted only by code that runs in the single producer goroutine
+(`run` and helpers only `run` calls), which only `newMemoizeSpec` starts, once per Number -/
+theorem source_consulted_only_by_the_producer :
+    Gen.V1.iterCalledOutsideProducer = [] ∧ Gen.V2.iterCalledOutsideProducer = [] ∧
+    Gen.V3.iterCalledOutsideProducer = [] ∧
+    Gen.V1.goStatements = ["newMemoizeSpec: result.run()"] ∧ Gen.V2.goStatements = ["newMemoizeSpec: result.run()"] ∧
+    Gen.V3.goStatements = ["newMemoizeSpec: result.run()"] := by
   repeat' apply And.intro
   all_goals rfl
 
